@@ -193,5 +193,37 @@ impl SimpleDiagnostic<'_> {
         assert(exists_error(viol)); // [V8.post.exit1_only_if_error]
 //@end
 
+// V8g: the end of `main` (main.rs:67-71): run the validators, and report only a non-empty result.
+// `validators::run` is V7's function; here it is an opaque call whose result is named by a ghost
+// function, so that the clauses below speak about "what `run` returned".
+pub mod validators {
+    use super::*;
+    pub uninterp spec fn run_result(context: Arc<ValidationContext>, s: Vec<Box<dyn ValidatorSync>>, a: Vec<Box<dyn ValidatorAsync>>) -> Option<SpecViolations>;
+
+    #[verifier::external_body]
+    pub fn run(context: Arc<ValidationContext>, sync_validators: Vec<Box<dyn ValidatorSync>>, async_validators: Vec<Box<dyn ValidatorAsync>>)
+        -> (r: anyhow::Result<HashMap<PathBuf, Vec<Violation>>>)
+        ensures
+            r matches Ok(m) ==> run_result(context, sync_validators, async_validators) == Some(vmap(m@)),
+            r is Err ==> run_result(context, sync_validators, async_validators) is None,
+    { unimplemented!() }
+}
+
+//@unit id=V8g file=src/main.rs fn=main slice_from=<<let violations = validators::run(>> slice_through=<<if>>
+//@wrapper
+fn main_run_and_report(context: ValidationContext, sync_validators: Vec<Box<dyn ValidatorSync>>, async_validators: Vec<Box<dyn ValidatorAsync>>) -> (r: anyhow::Result<()>)
+    ensures
+        // C13: a failed run is a failed `main` (non-zero exit status by Rust's runtime)
+        r is Ok ==> validators::run_result(Arc::new(context), sync_validators, async_validators) is Some, // [V8g.post.run_err_propagates]
+        // C11: exit status 0 means no error-severity diagnostic among what `run` returned
+        r is Ok ==> !exists_error(validators::run_result(Arc::new(context), sync_validators, async_validators).unwrap()), // [V8g.post.ok_implies_no_error]
+//@tail
+    Ok(())
+//@edit rule=ghost before=<<let violations = validators::run(>>
+    broadcast use axiom_pathbuf_key_model;
+//@edit rule=ghost after=<<let violations = validators::run(Arc::new(context), sync_validators, async_validators)?;>>
+    proof { lemma_vmap(violations@); }
+//@end
+
 } // verus!
 fn main() {}
